@@ -120,6 +120,20 @@ def replay(case):
                 out.append(('arr:descent', 'residual increases with the number of sweeps: %r' % (res,)))
             if value_changed(gsnap):
                 out.append(('arr:guess_changed', 'the initial guess was modified (%s)' % value_changed(gsnap)))
+            # one preallocated snapshot buffer and one basis list for two runs: first with the snapshots in reversed order,
+            # then refilled in place with the data (the least-squares problem is the same up to the order of the snapshots)
+            xb = np.array(x[:, ::-1], dtype=float, order='C')
+            yb = np.array(y[:, ::-1], order='C')
+            bl = basis()
+            reg.arr(xb, yb, bl, guess, repeats=1, rcond=1e-10, progress=False)
+            xb[:] = x
+            yb[:] = y
+            res_b = []
+            for rep in (1, 2, 3):
+                solb = reg.arr(xb, yb, bl, guess, repeats=rep, rcond=1e-10, progress=False)
+                res_b.append(np.sqrt(sum(float(np.linalg.norm(y[k] - contract(t.cores).reshape(-1) @ P) ** 2) for k, t in enumerate(solb))))
+            if any(abs(a - b) > 1e-7 * max(1.0, float(np.linalg.norm(y))) for a, b in zip(res_b, res)):
+                out.append(('arr:refilled-buffer', 'ARR on a snapshot buffer that was refilled in place gives residuals %r, on fresh arrays %r' % (res_b, res)))
             # one guess per row of y, passed as a list (as tests/test_regression.py does): the same results, and the
             # guesses in the list are arguments like any other
             glist = [guess.copy() for _ in range(y.shape[0])]
